@@ -289,7 +289,11 @@ func TestC14(t *testing.T) {
 		c := c14Case{Target: rapid.SampledFrom([]string{"ca", "mid", "leaf"}).Draw(t, "target")}
 		if (c.Target == "leaf" || rapid.IntRange(0, 2).Draw(t, "csr-signer") == 0) && rapid.IntRange(0, 3).Draw(t, "csr") == 0 {
 			// request without key: Go-made (with attributes) or hand-built for any curve
-			if rapid.Bool().Draw(t, "gocsr") {
+			if c.Target == "leaf" && rapid.IntRange(0, 2).Draw(t, "foreign-spki") == 0 {
+				// a request for a key of a kind gopki never makes itself (another tool's): the certificate carries that very
+				// SubjectPublicKeyInfo, whatever its algorithm and parameters look like
+				c.CSRDER = buildCSR(der.Seq(der.Set(der.Seq(der.MustOID("2.5.4.3"), der.UTF8("foreign requester")))), foreignSPKI(rapid.IntRange(0, 5).Draw(t, "foreign-kind")))
+			} else if rapid.Bool().Draw(t, "gocsr") {
 				_, c.CSRDER = goCertAndCSR(t)
 			} else {
 				cv := ecref.Curves[rapid.SampledFrom(ecKeyAlgs).Draw(t, "csrcurve")]
@@ -368,4 +372,36 @@ func TestC14(t *testing.T) {
 	}
 	core.Rapid(r, "reuse", r.Pick(500, 40000), gen, wrap)
 	_ = big.NewInt
+}
+
+// foreignSPKI builds SubjectPublicKeyInfo values whose AlgorithmIdentifier parameters are absent, NULL or constructed:
+// DSA (p, q, g), RSASSA-PSS with explicit and with empty parameters, an EC key with explicit domain parameters, Ed25519, X448.
+func foreignSPKI(kind int) []byte {
+	hexInt := func(hexs string) []byte {
+		v, _ := new(big.Int).SetString(hexs, 16)
+		return der.BigInt(v)
+	}
+	switch kind {
+	case 0: // DSA, toy-sized numbers (nothing verifies them)
+		return der.Seq(der.Seq(der.MustOID("1.2.840.10040.4.1"), der.Seq(hexInt("e0a67598cd1b763bc98c8abb333e5dda0cd3aa0e5e1fb5ba8a7b4eabc10ba338fae06dd4b90fda70d7cf0cb0c638be3341bec0af8a7330a3307ded2299a0ee61"), hexInt("f2ccd0d5d0d0d0d0d0d0d0d0d0d0d0d0d0d0d0d1"), hexInt("2"))),
+			der.BitStr(hexInt("1234567890abcdef1234567890abcdef"), 0))
+	case 1: // RSASSA-PSS, parameters SEQUENCE { [0] sha256, [2] saltLength 32 }
+		params := der.Seq(der.Explicit(0, der.Seq(der.MustOID("2.16.840.1.101.3.4.2.1"), der.Null())), der.Explicit(2, der.Integer(32)))
+		return der.Seq(der.Seq(der.MustOID("1.2.840.113549.1.1.10"), params), der.BitStr(der.Seq(hexInt("c5062b58d8539c765e1e5dbaf14cf75dd56c2e13105fecfd1a930bbb5948ff328f126abe779359ca59bca752c308d281573bc6178b6c0fef7dc445e4f826430437b9f9d790581de5749c2cb9cb26d42b2fee15b6b26f09c99670336423b86bc5bec71113157be2d944d7ff3eebffb28413143ea36755db0ae62ff5b724eecb3d316b6bac67e89cacd8171937e2ab19bd353a89acea8c36f81c89a620d5fd2effea896601c7f9daca7f033f635a3a943331d1b1b4f5288790b53af352f1121ca1bef205f40dc012c412b40bdd27585b946466d75f7ee0a7f9d549b4bece6f43ac3ee65fe7fd37123359d9f1a850ad450aaf5c94eb11dea3fc0fc6e9856b1805ef"), der.Integer(65537)), 0))
+	case 2: // RSASSA-PSS, empty parameter sequence (all defaults)
+		return der.Seq(der.Seq(der.MustOID("1.2.840.113549.1.1.10"), der.Seq()), der.BitStr(der.Seq(hexInt("c5062b58d8539c765e1e5dbaf14cf75dd56c2e13105fecfd1a930bbb5948ff328f126abe779359ca59bca752c308d281573bc6178b6c0fef7dc445e4f826430437b9f9d790581de5749c2cb9cb26d42b2fee15b6b26f09c99670336423b86bc5"), der.Integer(3)), 0))
+	case 3: // EC public key with explicit domain parameters (P-256 written out)
+		cv := ecref.Curves["P-256"]
+		x, y := cv.BaseMult(new(big.Int).SetInt64(7))
+		l := (cv.P.BitLen() + 7) / 8
+		a := cv.A
+		params := der.Seq(der.Integer(1), der.Seq(der.MustOID("1.2.840.10045.1.1"), der.BigInt(cv.P)),
+			der.Seq(der.Octets(a.FillBytes(make([]byte, l))), der.Octets(cv.B.FillBytes(make([]byte, l)))),
+			der.Octets(cv.Uncompressed(cv.Gx, cv.Gy)), der.BigInt(cv.N), der.Integer(1))
+		return der.Seq(der.Seq(der.MustOID(xref.OIDEC), params), der.BitStr(cv.Uncompressed(x, y), 0))
+	case 4: // Ed25519: no parameters
+		return der.Seq(der.Seq(der.MustOID("1.3.101.112")), der.BitStr(bytes.Repeat([]byte{0x5a}, 32), 0))
+	}
+	// X448: no parameters, 56 octets
+	return der.Seq(der.Seq(der.MustOID("1.3.101.111")), der.BitStr(bytes.Repeat([]byte{0xa5}, 56), 0))
 }
